@@ -1070,3 +1070,134 @@ pub fn c15(sc: &Scenario, hx: &Hx, rec: &crate::sched::SchedRecord, chans: &[cra
     }
     v.nontrivial = dropped;
 }
+
+/// C12 (ACK family): manual polls with counting wakers.
+pub fn c12_ack(sc: &Scenario, hx: &Hx, v: &mut Verdict) {
+    use std::collections::HashMap;
+    let mut by_ack: HashMap<AckId, Vec<&(u64, AckId, usize, usize, Option<St>)>> = HashMap::new();
+    for p in &hx.polls {
+        by_ack.entry(p.1).or_default().push(p);
+    }
+    let mut overlapped = false;
+    let mut waker_changed = false;
+    for (ack, polls) in &by_ack {
+        let w = match hx.widx.get(ack) {
+            Some(ix) => &hx.writes[*ix],
+            None => continue,
+        };
+        let pollers: std::collections::BTreeSet<usize> = polls.iter().map(|p| p.2).collect();
+        let ctx = format!("pollers={}", pollers.len().min(3));
+        let mut first_ready: Option<St> = None;
+        let mut last_pending_waker: Option<usize> = None;
+        for p in polls.iter() {
+            match p.4 {
+                Some(St::Pending) => {
+                    v.fail(
+                        "C12",
+                        format!("C12/poll-returned-Pending/{}", ctx),
+                        format!("poll of the acknowledgement of {} by thread {} returned Ready(Pending)", fmt_op(w), p.2),
+                        p.0,
+                    );
+                }
+                Some(s) => match first_ready {
+                    None => {
+                        first_ready = Some(s);
+                        if let Some((_, real)) = w.apply_end {
+                            if real != s {
+                                v.fail(
+                                    "C12",
+                                    format!("C12/wrong-status/{}", ctx),
+                                    format!("{}: worker finished with {:?} but the first completed poll yielded {:?}", fmt_op(w), real, s),
+                                    p.0,
+                                );
+                            }
+                        } else if w.drained.is_some() && s != St::ShuttingDown {
+                            v.fail("C12", format!("C12/wrong-status/{}", ctx), format!("{}: drained but poll yielded {:?}", fmt_op(w), s), p.0);
+                        }
+                    }
+                    Some(f) => {
+                        if f != s {
+                            v.fail(
+                                "C12",
+                                format!("C12/status-changed/{}", ctx),
+                                format!("{}: a poll yielded {:?} after an earlier poll had yielded {:?}", fmt_op(w), s, f),
+                                p.0,
+                            );
+                        }
+                    }
+                },
+                None => {
+                    if first_ready.is_some() {
+                        v.fail(
+                            "C12",
+                            format!("C12/pending-after-ready/{}", ctx),
+                            format!("{}: a poll returned Pending after an earlier poll had completed", fmt_op(w)),
+                            p.0,
+                        );
+                    }
+                    if let Some(prev) = last_pending_waker {
+                        if prev != p.3 {
+                            waker_changed = true;
+                        }
+                    }
+                    last_pending_waker = Some(p.3);
+                }
+            }
+            // a poll between the worker finishing the command and done() returning
+            if let (Some((e, _)), Some(a)) = (w.apply_end, w.acked) {
+                if p.0 > e && p.0 < a {
+                    overlapped = true;
+                }
+            }
+        }
+        // lost wake-up: the last poll before done() returned was Pending => its waker is woken
+        if let Some(acked) = w.acked.or(w.drained) {
+            if let Some(last_before) = polls.iter().filter(|p| p.0 < acked).last() {
+                if last_before.4.is_none() && last_before.3 != crate::exec::TASK_WAKER {
+                    let woken = hx.wakes.iter().any(|(s, wk)| *wk == last_before.3 && *s > last_before.0);
+                    if !woken {
+                        v.fail(
+                            "C12",
+                            format!("C12/lost-wakeup/{}", ctx),
+                            format!(
+                                "{}: thread {} polled last before completion (waker {}), got Pending, and that waker was never woken",
+                                fmt_op(w), last_before.2, last_before.3
+                            ),
+                            acked,
+                        );
+                    }
+                }
+            }
+        }
+        // Accepted => the effect is visible to a read invoked after the poll
+        if let (Some(val), true) = (w.value(), w.is_put()) {
+            let only_writer = hx.writes_of_key(w.key).count() == 1;
+            if only_writer && hx.first_shutdown_inv().is_none() {
+                if let Some(pr) = polls.iter().find(|p| p.4 == Some(St::Accepted)) {
+                    for r in &hx.reads {
+                        if r.inv > pr.0 {
+                            for (pos, k) in r.keys.iter().enumerate() {
+                                if *k == w.key && r.vals.get(pos).copied().flatten() != Some(val) {
+                                    v.fail(
+                                        "C12",
+                                        format!("C12/accepted-not-visible/{}", ctx),
+                                        format!("{} polled Accepted at {}, yet T{}#{} {:?}(k{}) invoked afterwards returned {:x?}", fmt_op(w), pr.0, r.t, r.i, r.kind, k, r.vals.get(pos)),
+                                        r.ret,
+                                    );
+                                }
+                            }
+                        }
+                    }
+                }
+            }
+        }
+    }
+    let _ = sc;
+    if overlapped {
+        v.probes.push("poll_overlapped_done");
+    }
+    if waker_changed {
+        v.probes.push("waker_changed_between_pending_polls");
+    }
+    v.nontrivial = overlapped || waker_changed;
+}
